@@ -327,6 +327,28 @@ def run_single(prop, scenario, tier="quick", binpath=None, timeout=None, extra_e
 def fingerprint(res):
     return (res.get("kind", ""), res.get("site", ""))
 
+def violations_of(res):
+    """every violation a result reports, each as a result-shaped dict (engines may report several per scenario)"""
+    al = res.get("all")
+    if not al:
+        return [res]
+    out = []
+    for v in al:
+        d = dict(res)
+        d.pop("all", None)
+        d.update({"kind": v.get("kind"), "site": v.get("site"), "detail": v.get("detail")})
+        out.append(d)
+    return out
+
+def pick_fp(res, fp):
+    """the violation with fingerprint fp among those a result reports, or None"""
+    if res.get("verdict") != "violation":
+        return None
+    for v in violations_of(res):
+        if fingerprint(v) == fp:
+            return v
+    return None
+
 # ------------------------------------------------------------------------------------------------
 # minimisation: delta debugging over the scenario structure
 
@@ -397,7 +419,7 @@ def minimise(prop, sc, fp, budget=120, binpath=None, extra_env=None):
             spent += len(batch)
             hit = None
             for c, o in zip(batch, outs):
-                if o.get("verdict") == "violation" and fingerprint(o) == fp:
+                if pick_fp(o, fp) is not None:
                     hit = c
                     break
             if hit is not None:
@@ -516,7 +538,7 @@ def main():
         except Exception as ex:
             infra("known finding %s: cannot read replay %s: %s" % (e["id"], rp, ex))
         res = run_single(prop, sc, tier, binpath=(RACE_BIN if e.get("race") else None))
-        if res.get("verdict") == "violation" and match_known([e], res, sc):
+        if res.get("verdict") == "violation" and any(match_known([e], v, sc) for v in violations_of(res)):
             known_lines.append("KNOWN-FINDING: property=%s %s [%s]" % (prop, e["what"], e["id"]))
             e["_confirmed"] = True
         else:
@@ -635,14 +657,15 @@ def main():
 
     for r in results:
         if r.get("verdict") == "violation":
-            if r.get("kind") == "infra":
-                infra("engine reported: %s" % r.get("detail"))
             sc = r.get("scenario")
-            e = match_known(known, r, sc)
-            if e is not None:
-                known_hits[e["id"]] += 1
-                continue
-            add_cand(r, sc, race=r.get("race", False))
+            for v in violations_of(r):
+                if v.get("kind") == "infra":
+                    infra("engine reported: %s" % v.get("detail"))
+                e = match_known(known, v, sc)
+                if e is not None:
+                    known_hits[e["id"]] += 1
+                    continue
+                add_cand(v, sc, race=r.get("race", False))
     for (w, idx, sd, why, text) in died:
         # regenerate the scenario of that index
         sc = emit_scenario(prop, tier, w.base, idx, w.binpath, cfg.get("env"))
@@ -669,6 +692,8 @@ def main():
         xenv = {"VERIF_RACE": "1"} if race else None
         # confirm in a fresh process
         again = run_single(prop, sc, tier, binpath=binp, extra_env=xenv)
+        if pick_fp(again, fp) is not None:
+            again = pick_fp(again, fp)
         if again.get("verdict") != "violation" or fingerprint(again) != fp:
             # second chance: the fingerprint may legitimately differ in detail; accept same kind
             if again.get("verdict") == "violation":
@@ -689,6 +714,8 @@ def main():
         done_fps.add(fp)
         small, spent = minimise(prop, sc, fp, budget=cfg.get("min_budget", 100), binpath=binp, extra_env=xenv)
         final = run_single(prop, small, tier, binpath=binp, extra_env=xenv)
+        if pick_fp(final, fp) is not None:
+            final = pick_fp(final, fp)
         if final.get("verdict") != "violation" or fingerprint(final) != fp:
             small, final = sc, again
         e = match_known(known, final, small)
@@ -815,6 +842,9 @@ def replay_cmd(path):
         build(race=True)
     res = run_single(prop, data["scenario"], data.get("tier", "quick"), binpath=(RACE_BIN if race else BIN), extra_env=({"VERIF_RACE": "1"} if race else None))
     fp = data.get("fingerprint", {})
+    hit = pick_fp(res, (fp.get("kind"), fp.get("site")))
+    if hit is not None:
+        res = hit
     if res.get("verdict") == "violation" and res.get("kind") == fp.get("kind") and res.get("site") == fp.get("site"):
         print("VIOLATION property=%s replay=%s kind=%s site=%s" % (prop, path, fp.get("kind"), fp.get("site")))
         print((res.get("detail") or "")[:3000])
